@@ -7,6 +7,7 @@ A case is engine independent:
   backend    "duckdb" | "sqlite"
   idkind     "int" | "str" | "link"          (link: composite [source_dataset, unique_id])
   link_type  linker only: dedupe_only | link_only | link_and_dedupe
+  one_table  linker link jobs only: hand the records over as ONE table with a source_dataset column
   nodes      ids in table order (int | str | [sds, uid])
   edges      [l, r, k]: match_probability = k/1024 (dyadic: engine floats and model Q agree exactly)
   thr        None | ["p", k] | ["w", w]      (probability k/1024 or integer match weight w)
@@ -351,6 +352,13 @@ def _run_impl(case, api, cap):
             "unique_id_r": _col([e[1][1] for e in case["edges"]], uid_kind),
         })
         aliases = names
+        if case.get("one_table"):
+            # the same link job presented as ONE pre-concatenated table carrying its own source_dataset column
+            recs = list(case["nodes"])
+            tables = [pd.DataFrame({"unique_id": _col([x[1] for x in recs], uid_kind),
+                                    "source_dataset": _col([x[0] for x in recs], "str"),
+                                    "a": pd.Series(["x"] * len(recs), dtype="string")})]
+            aliases = None
     else:
         uid_kind = case["idkind"]
         tables = [pd.DataFrame({"unique_id": _col(list(case["nodes"]), uid_kind),
@@ -765,5 +773,6 @@ def shrink(case, budget=150):
 
 def features_of(case):
     return {"entry": case["entry"], "backend": case["backend"], "idkind": case["idkind"],
+            "one_table_link_job": bool(case.get("one_table")),
             "threshold_kind": None if case["thr"] is None else case["thr"][0],
             "n_nodes": len(case["nodes"]), "n_edges": len(case["edges"])}
